@@ -107,12 +107,12 @@ func (st *stepper[K]) Step() bool {
 		a, b := st.s.dump(), st.twin.dump()
 		ca, cb := canonWithClasses(a), canonWithClasses(b)
 		// values (unique ids) differ between the two trees by a constant offset: compare shapes via structDigest
-		sa, sb := structDigest(a), structDigest(b)
+		sa, sb := structDigestNoLanes(a), structDigestNoLanes(b)
 		_ = ca
 		_ = cb
 		if sa != sb {
 			st.s.violate("a tree emptied by deletions no longer behaves like a newly created one: structure differs from a fresh tree fed the same operations",
-				"identical structural dump (size classes included)", "dumps differ", "")
+				"identical structural dump (size classes, fan-out, paths, branch bytes, keys; raw unoccupied lanes excluded)", "dumps differ", "")
 			return false
 		}
 		if st.s.T.Size() != st.twin.T.Size() {
